@@ -355,11 +355,20 @@ fn small_or_huge(rng: &mut Rng) -> u64 {
     }
 }
 
+thread_local! {
+    /// S10: exact length of the range vectors of the op being generated (0 = the small default)
+    static BIG_LEN: std::cell::Cell<usize> = const { std::cell::Cell::new(0) };
+}
+/// S10: vector lengths straddling the usual container thresholds, and a few large ones
+const BIG_LENS: [usize; 16] = [7, 8, 9, 15, 16, 17, 31, 32, 33, 63, 64, 65, 127, 129, 513, 2000];
+
 /// a legal BlockRanges vector (sorted, disjoint; adjacency allowed, as `from_vec` allows it)
 fn legal_raw(rng: &mut Rng, max_len: usize) -> Raw {
-    let n = rng.usize(0, max_len);
+    // S10 size-threshold stress: when BIG_LEN is set the vector has EXACTLY that many ranges
+    let big = BIG_LEN.with(|b| b.get());
+    let n = if big > 0 { big } else { rng.usize(0, max_len) };
     let mut out = vec![];
-    let mut cur = if rng.chance(1, 8) { u64::MAX - 200 } else { rng.range(1, 10) };
+    let mut cur = if big == 0 && rng.chance(1, 8) { u64::MAX - 200 } else { rng.range(1, 10) };
     for _ in 0..n {
         let len = rng.range(0, 6);
         let Some(end) = cur.checked_add(len) else { break };
@@ -475,13 +484,20 @@ impl Prop for C23 {
          STORE.HEIGHT_RANGES with keys inserted in shuffled order and overwritten duplicates; STORE.RANGES with any \
          subset of the header/sampled/pruned/v2-sampled/unrelated keys; legal vectors (incl. adjacent ranges and \
          values at u64::MAX) and illegal ones (start 0, start>end, overlap, unsorted, touching); content tables and \
-         identity present/absent/empty; `open2` opens the result a second time. Non-trivial = a version 1..6 \
+         identity present/absent/empty; `open2` opens the result a second time; S10 size-threshold phase (tags bigN/…): \
+         160 (thorough 3000) further ops whose range vectors have EXACTLY N = 7,8,9,15,16,17,31,32,33,63,64,65,127,129,513,2000 \
+         ranges (v1 rows and every STORE.RANGES value; legal, or with one defect injected at a random position). Non-trivial = a version 1..6 \
          database that holds at least one non-empty range vector."
     }
     fn gen_ops(&mut self, rng: &mut Rng, tier: Tier, out: &mut Emitter) {
         let n = if tier == Tier::Thorough { 40_000 } else { 2_500 };
         let all = ["H", "S", "P", "A", "O"];
-        for i in 0..n {
+        // S10 size-threshold stress: a second phase whose range vectors (v1 HEIGHT_RANGES rows and every
+        // STORE.RANGES value, legal and with one defect injected anywhere) have exactly 7..2000 ranges
+        let n_big = if tier == Tier::Thorough { 3_000 } else { 160 };
+        for i in 0..n + n_big {
+            let big = if i >= n { BIG_LENS[(i - n) % BIG_LENS.len()] } else { 0 };
+            BIG_LEN.with(|b| b.set(big));
             let ver: Option<u64> = match rng.below(20) {
                 0 => None,
                 1 => Some(0),
@@ -547,8 +563,10 @@ impl Prop for C23 {
             let verb = if i % 5 == 0 { "open2" } else { "open" };
             let vs = ver.map(|v| v.to_string()).unwrap_or("none".into());
             let nontrivial = matches!(ver, Some(1..=6)) && nonempty;
-            out.op(format!("{verb} ver={vs} hr={hr} rt={rt} tabs={tabs} id={id}"), &format!("{verb}/{tag}"), nontrivial);
+            let tag = if big > 0 { format!("big{big}/{verb}/{tag}") } else { format!("{verb}/{tag}") };
+            out.op(format!("{verb} ver={vs} hr={hr} rt={rt} tabs={tabs} id={id}"), &tag, nontrivial);
         }
+        BIG_LEN.with(|b| b.set(0));
     }
     fn run(&mut self, line: &str) -> String {
         match opname(line) {
